@@ -33,7 +33,7 @@ import stringprep
 import types
 import unicodedata
 
-from vlib.core import HarnessError, Outcome
+from vlib.core import HarnessError, LibraryFault, Outcome
 from vlib.runner import Campaign
 
 ID = "C18"
@@ -336,7 +336,7 @@ def _step(auth, payload):
         if not isinstance(r, _Done):
             return r
     if not isinstance(r, _Done):
-        raise HarnessError("authenticator.step() returned %r" % (r,))
+        raise LibraryFault("server_accepts", "step:returned_unexpected_object", {"got": repr(r)[:200]})
     if r.exc is not None:
         raise r.exc
     return r.value
